@@ -64,6 +64,10 @@ CHECKS['C21'] = dict(
     level='proof',
     text='Theorems in Coq, for EVERY byte string and EVERY way of cutting it: (1) the loop of receive_data over the frame buffer (9-byte header, wait for the body, size check against the limit read from the receiver state before every frame, body parse, HEADERS/PUSH_PROMISE + CONTINUATION folding) run chunk by chunk equals one run on the concatenation - same receiver state (hence same events and emitted bytes), same exception at the same frame, same leftover bytes and partial header block - for arbitrary header/body parsers and an arbitrary stateful receiver (Section variables, no hypotheses); (2) the client preface checked piecewise equals the check on the concatenation; (3) on the connection model, receive_data per group of frames equals one call on all frames; (4) any sequence of data_to_send(amount) calls (None, 0, positive, oversized, negative) partitions the buffer. The frame-buffer model (instantiated with hyperframe 6.1 parse rules) is compared with the real FrameBuffer on chunked valid / mutated byte streams including 62..66 CONTINUATION frames; every generated connection program is replayed on the real H2Connection with each receive_data call cut one byte at a time / every 9 or 10 bytes with empty calls / randomly and all observations must equal the uncut run.',
     design='7.C21', technique='Coq theorem by induction over chunk lists and fuel (parsers and receiver abstract) + differential correspondence + metamorphic replay on the implementation')
+CHECKS['C17'] = dict(
+    level='proof',
+    text='Theorems in Coq closing, for ALL inputs, the places where the receive path could raise something other than a ProtocolError: the inbound header pipeline (cookie joining, every validation stage, text decoding) never raises IndexError for any header list (empty names included) and its UnicodeDecodeError is turned into ProtocolError; every HPACK decoder outcome becomes ProtocolError / DenialOfServiceError or a header list; frames refused by the frame buffer raise ProtocolError / FrameDataMissingError / FrameTooLargeError and InvalidPaddingError is translated by receive_data; every h2 exception class raised on the receive path is a ProtocolError subclass; PRIORITY, GOAWAY and unknown-type frames never raise anything else in any state. The single end-to-end statement (no Python exception from api_receive in every reachable state) is NOT proved as one theorem (it needs the frame-size and window invariants composed over every handler): that composition is covered by the model/implementation correspondence on malformed-frame-heavy programs, a byte-level fuzzer of the real receive_data (tens of thousands of conversations with deviant frames, arbitrary HPACK bytes, mutation, random chunking, all header_encoding/validation configurations) and the frame-buffer model compared with the real FrameBuffer on CONTINUATION floods.',
+    design='7.C17', technique='Coq theorems per exception source (all inputs) + differential correspondence + byte-level fuzzing as failing-input search')
 NA_REASON = {}
 def main():
     checks = []
